@@ -263,6 +263,43 @@ def zip_program(h, o1, o2, rng, allow_add=True, p_fail=0.0):
             s2.xs[pos - 1] = s2.norm(v2)
 
 
+def zip_same_program(h, o, rng):
+    """a zip iterator with the SAME array on both sides (ar1 == ar2): every call acts twice on one array.
+    No fail= on zit_add here: when the second add_at has to grow the array and is refused the library
+    returns CC_OK with one element inserted (corpus/array_sized/defect_zip_add_same_array_refused.ops)."""
+    s = h.sh[o]
+    h.ops.append(f"zit_new o={o} o2={o}")
+    pos = 0
+    for _ in range(rng.randint(0, len(s.xs) + 2)):
+        h.ops.append("zit_next")
+        if pos >= len(s.xs):
+            continue
+        pos += 1
+        if rng.random() < 0.4:
+            h.ops.append("zit_index")
+        r = rng.random()
+        if r < 0.25:
+            h.ops.append("zit_remove")
+            pos -= 1
+            del s.xs[pos]
+            if pos < len(s.xs):
+                del s.xs[pos]
+            if rng.random() < 0.2:
+                h.ops.append("zit_remove")
+        elif r < 0.5:
+            v1, v2 = h.val(), h.val()
+            h.ops.append(f"zit_add {v1} {v2}")
+            s.xs.insert(pos, s.norm(v1))
+            s.xs.insert(pos, s.norm(v2))
+            pos += 1
+        elif r < 0.7:
+            v1, v2 = h.val(), h.val()
+            h.ops.append(f"zit_replace {v1} {v2}")
+            s.xs[pos - 1] = s.norm(v2)
+    if rng.random() < 0.5:
+        h.ops.append(f"foreach_zip o={o} o2={o}")
+
+
 def derive(h, src, to, rng):
     """one mk_* from slot src into the free slot `to`"""
     s = h.sh[src]
@@ -368,8 +405,32 @@ class ArraySizedGen:
                         ops += [act, "zit_index"]
                 ops += ["zit_next", "zit_next", "foreach_zip o=0 o2=1", "destroy"]
                 out.append(ops)
+        out += self._small_zip_same()
         # removing twice, mutating before the first yield
         out.append(["new esize=2 cap=2", "add 1", "add 2", "it_new", "it_remove", "it_replace 5", "it_next", "it_remove", "it_remove", "it_next", "destroy"])
+        return out
+
+    def _small_zip_same(self):
+        """zip iterator over one and the same array, capacities 1-3 with exactly 0 or 1 free slots"""
+        out = []
+        acts = ["", "zit_remove", "zit_add 8 9", "zit_replace 6 7", "zit_index"]
+        for dl in (1, 3):
+            for cap in (1, 2, 3):
+                for free in (0, 1):
+                    n = cap - free
+                    if n < 1:
+                        continue
+                    for ex in ("2", "1.5"):
+                        for a1 in acts:
+                            for a2 in acts:
+                                ops = [f"new esize={dl} cap={cap} exp={ex}"] + [f"add {i + 1}" for i in range(n)]
+                                ops += ["zit_new o=0 o2=0", "zit_index", "zit_next"] + ([a1, "zit_index"] if a1 else [])
+                                ops += ["zit_next"] + ([a2, "zit_index"] if a2 else []) + ["zit_next", "foreach_zip o=0 o2=0", "capacity", "destroy"]
+                                out.append(ops)
+        # refusals on the growth check of an aliased zit_add (clean CC_ERR_ALLOC: the array is full and the
+        # growth leaves at least two free slots, so the two add_at calls do not allocate)
+        out.append(["new esize=2 cap=1 exp=3", "add 1", "zit_new o=0 o2=0", "zit_next", "zit_add 8 9 fail=1", "zit_next", "zit_add 8 9", "zit_next", "destroy"])
+        out.append(["new esize=2 cap=2 exp=2", "add 1", "add 2", "zit_new o=0 o2=0", "zit_next", "zit_add 8 9 fail=1", "zit_add 8 9", "zit_next", "destroy"])
         return out
 
     def _small_derived(self, quick):
@@ -399,7 +460,7 @@ class ArraySizedGen:
         return out
 
     def _small_growth(self, quick):
-        out = self._limit_probes()
+        out = self._limit_probes() + self._small_zip_same()[::7]
         for cap in (1, 2, 3, 4):
             for ex in FACTORS:
                 for dl in (1, 17):
@@ -501,6 +562,7 @@ class ArraySizedGen:
         p_der = {"derived": 0.15, "all": 0.05, "fault": 0.15}.get(focus, 0)
         p_sort = {"sort": 0.2, "all": 0.04}.get(focus, 0)
         p_fail = {"all": 0.05}.get(focus, 0)
+        p_zsame = {"iter": 0.04, "growth": 0.02, "all": 0.02}.get(focus, 0)
         allow_it_add = True
         i = 0
         while i < length:
@@ -510,6 +572,9 @@ class ArraySizedGen:
             if o not in h.sh:
                 o = live[0]
             r = rng.random()
+            if rng.random() < p_zsame:
+                zip_same_program(h, o, rng)
+                continue
             if r < p_iter:
                 iter_program(h, o, rng, allow_it_add, p_fail=4 * p_fail)
             elif r < p_iter + p_zip:
